@@ -77,7 +77,7 @@ func startAuthz(w *world.World, b *world.Browser, o flowOpts) (*session, *world.
 	s := &session{opts: o, redirect: o.redirect}
 	ap := world.AuthParams{Client: o.client, RedirectURI: o.redirect, ResponseType: o.responseType, ResponseMode: o.responseMode,
 		Scope: strings.Join(o.scopes, " "), State: o.state, Nonce: o.nonce, Extra: o.extra}
-	if o.pkce != "" {
+	if o.pkce != "" && o.pkce != "none" {
 		s.verifier = "verifier-0123456789abcdefghijklmnopqrstuvwxyz-ABCDEFGHIJ-" + o.client
 		ap.ChallengeMethod = o.pkce
 		if o.pkce == "S256" {
